@@ -4,7 +4,7 @@ import ast
 from pyvc.core import source
 from props import common, generic, tree_common as tc
 from props.C01 import GET_TOKENS, scanner_state_is_local
-from props.C02 import splitter_obligations
+from props.C02 import splitter_obligations, ws_rules
 
 
 def same_pipeline(rep):
@@ -64,7 +64,10 @@ def run(rep):
         structural=[splitter_obligations, same_pipeline, whitespace_agreement, tc.grouping_frame, tc.flatten_and_str,
                     # "agrees with parse()" and "splitting a piece again" compare separate runs over the same text: the
                     # lexer must not remember anything between (or during) runs
-                    lambda r: scanner_state_is_local(r, 'C04')],
+                    lambda r: scanner_state_is_local(r, 'C04'),
+                    # ... and conversely: whatever the lexer types as whitespace (and the splitter may therefore drop at the
+                    # end of the text) is whitespace for str.strip() too
+                    lambda r: ws_rules(r, 'C04')],
         assumptions=['str.strip() removes exactly a maximal whitespace prefix and suffix',
                      're-splitting a returned piece gives that piece: bounded stand-in only (lexing a piece out of context '
                      'is regex semantics)',
